@@ -597,6 +597,20 @@ def roles(facts):
     return r
 
 
+def bind_slice_dest(f, ctx):
+    """bind the two parameters of the slice encoder by what they are, not by position: the output is the `&mut W` with
+    `W: Output`, the other one is the slice"""
+    outs = {q.split(':')[0].strip() for q in f.get('preds', []) if q.endswith(': codec::Output')}
+    ps = [q for q in f['params'] if q and q.get('k') == 'bind']
+    dest = [q for q in ps if (q.get('ty') or '').replace('&mut ', '').strip() in outs and (q.get('ty') or '').startswith('&mut ')]
+    rest = [q for q in ps if q not in dest]
+    if len(dest) != 1 or len(rest) != 1:
+        # fall back to the order of the pinned tree
+        dest, rest = [f['params'][1]], [f['params'][0]]
+    ctx.env[rest[0]['v']] = ('param', 'slice', None)
+    ctx.env[dest[0]['v']] = ('dest',)
+
+
 def role_name(facts, role):
     g = roles(facts).get(role)
     return tname(g['path']) if g else '<missing %s>' % role
